@@ -121,6 +121,10 @@ func init() {
 			func(b *bctx) capnp.Struct { return b.newVerTwoDataTwoPtr().Struct },
 			func(c *vctx, s capnp.Struct) *V { return viewVerTwoDataTwoPtr(c, air.VerTwoDataTwoPtr{Struct: s}) },
 			func(s capnp.Struct) string { return air.VerTwoDataTwoPtr{Struct: s}.String() }},
+		{"VerTwoPtr", air.VerTwoPtr_TypeID,
+			func(b *bctx) capnp.Struct { return b.newVerTwoPtr().Struct },
+			func(c *vctx, s capnp.Struct) *V { return viewVerTwoPtr(c, air.VerTwoPtr{Struct: s}) },
+			func(s capnp.Struct) string { return air.VerTwoPtr{Struct: s}.String() }},
 		{"VerTwoTwoPlus", air.VerTwoTwoPlus_TypeID,
 			func(b *bctx) capnp.Struct { return b.newVerTwoTwoPlus().Struct },
 			func(c *vctx, s capnp.Struct) *V { return viewVerTwoTwoPlus(c, air.VerTwoTwoPlus{Struct: s}) },
